@@ -3,6 +3,7 @@ import FxVerif.Model.C17Machine
 import FxVerif.Model.C17Float
 import FxVerif.Model.C17Sort
 import FxVerif.Model.C17Ack
+import FxVerif.Model.C17Hist
 import FxVerif.Model.Util
 /-! line-protocol driver for the C17 models: `lake env lean --run Driver/C17.lean < ops.txt`
 
@@ -37,6 +38,9 @@ ops:
   members): the REGENERATED statement program interpreted under the alternating schedule; answers `ok refund=<n>` or
   `err:<kind> refund=0` (kinds: unmarshal, not-canonical, …) — `refund` = what the ICS-20 application returned
   from the escrow account.
+* `swget <none|-|a,b,…> <absent|-|a,b,…>` — the REGENERATED statement program of `x/gov/keeper` `GetSwitchParams`, interpreted
+  (`runGetter switchGet`): first word = what an earlier read on ANOTHER context returned (all a process-level cache could hold),
+  second word = the record in the store of the context that is read now; answers the returned names (`-` = none).
 -/
 open FxVerif FxVerif.Util FxVerif.Model.C17
 
@@ -155,6 +159,11 @@ def step (st : Unit) (line : String) : Unit × String :=
     match parsePairs b, parsePairs c with
     | some b, some c => (st, toString (powerDiffNumerator b c))
     | _, _ => (st, "bad-op")
+  | ["swget", prev, store] =>
+    let names (w : String) : List String := if w == "-" then [] else w.splitOn ","
+    let mem : Option (List String) := if prev == "none" then none else some (names prev)
+    let rec? : Option (List String) := if store == "absent" then none else some (names store)
+    (st, showList (switchGetOp mem rec?))
   | ["supportchains", l] => (st, ",".intercalate (sortChains (l.splitOn ",")))
   | ["batchfees", l] =>
     match (l.splitOn ";").mapM parseFee with
